@@ -1,6 +1,7 @@
 """C17: neural-network routines (conv1d/conv2d, max/avg pooling, softmax/softmin, batch/layer/instance/group norm, linear,
 bilinear, pairwise_distance, cosine_similarity) equal their direct nested-loop definitions (PyTorch semantics)."""
 import itertools
+import os
 
 import numpy as np
 
@@ -128,7 +129,7 @@ def gen_cases(rng, tier):
         return N, C, g, O, H, W, kh, kw, s, p, d
 
     n2 = 0
-    want = 1500 if quick else 35000
+    want = 1000 if quick else 35000
     while n2 < want:
         N, C, g, O, H, W, kh, kw, s, p, d = conv2d_draw(False)
         if M.conv_out_size(H, kh, s[0], p[0], d[0]) <= 0 or M.conv_out_size(W, kw, s[1], p[1], d[1]) <= 0:
@@ -261,7 +262,7 @@ def gen_cases(rng, tier):
             xs = [rng.randint(1, 4) for _ in range(d)]
             k = rng.randint(1, d)
             ns = xs[d - k:]
-            if size(xs) * size(ns) ** 2 <= 6000:
+            if size(xs) * size(ns) ** 2 <= 2500:
                 break
         dt = pick("fd")
         dflt = 1 if (dt == "f" and rng.random() < 0.3) else 0
@@ -273,7 +274,7 @@ def gen_cases(rng, tier):
         while True:
             nd = rng.randint(1, 2)
             xs = [rng.randint(1, 3), rng.randint(1, 4)] + [rng.randint(1, 4) for _ in range(nd)]
-            if size(xs) * size(xs[2:]) ** 2 <= 6000:
+            if size(xs) * size(xs[2:]) ** 2 <= 2500:
                 break
         C = xs[1]
         dt = pick("fd")
@@ -287,7 +288,7 @@ def gen_cases(rng, tier):
             C = rng.randint(1, 6)
             G = rng.choice(divisors(C))
             xs = [rng.randint(1, 3), C] + [rng.randint(1, 3) for _ in range(nsp)]
-            if size(xs) * (size(xs[2:]) * C // G) ** 2 <= 6000:
+            if size(xs) * (size(xs[2:]) * C // G) ** 2 <= 2500:
                 break
         dt = pick("fd")
         eps = eps_pick()
@@ -404,18 +405,16 @@ def argclass(m):
     if op.startswith("nn_conv"):
         # partition: batch>1 | several output channels per group and/or per-axis dilation pair with different entries |
         # everything else by the set of non-default features
+        # (the three special blocks are not split by call form: one cause, one key per op)
         if m["xs"][0] > 1:
-            return "%s:batch_gt1" % m["form"]
+            return "batch_gt1"
 
         def lst(v):
             return [int(t) for t in (v if isinstance(v, list) else [v])]
-        special = []
-        if m["groups"] > 1 and m["ws"][0] // m["groups"] > 1:
-            special.append("groups_multi_out")
         if len(set(lst(m["dilation"]))) > 1:
-            special.append("dilation_pair_differs")
-        if special:
-            return "%s:%s" % (m["form"], "+".join(special))
+            return "dilation_pair_differs"
+        if m["groups"] > 1 and m["ws"][0] // m["groups"] > 1:
+            return "groups_multi_out"
         feats = "".join(c for c, on in (("b", m["b"] is not None), ("d", any(t != 1 for t in lst(m["dilation"]))), ("g", m["groups"] > 1),
                                         ("p", any(t != 0 for t in lst(m["padding"]))), ("s", any(t != 1 for t in lst(m["stride"])))) if on)
         return "%s:%s" % (m["form"], feats or "plain")
@@ -572,6 +571,11 @@ def self_check(ctx, cases):
 
 def run(ctx):
     cases = gen_cases(ctx.rng, ctx.tier)
+    only = [t for t in os.environ.get("VERIF_ONLY_OPS", "").split(",") if t]
+    if only:
+        # debugging aid (mutant triage): restrict the run to these ops ("name" or "prefix*"); only their binaries are built
+        cases = [c for c in cases if any(c["op"] == t or (t.endswith("*") and c["op"].startswith(t[:-1])) for t in only)]
+        ctx.set("restricted_to_ops", only)
     self_check(ctx, cases)
     res = V.run_module_cases(HARNESS, cases, "asan", parse=parse)
     acc = HookAcc()
@@ -590,7 +594,7 @@ def run(ctx):
     if norec:
         ctx.inconc("%d cases produced no record" % norec)
     ctx.rule = ("conv grid: batch 1..2, in-channels 1..4 x every divisor as groups, out-channels g|2g, spatial 1..7, kernel 1..3, stride 1..3, padding 0..2, dilation 1..2, bias on/off, positive output "
-                "(quick: 1500 sampled conv1d + 250 defaulted forms, 1500 conv2d + 350 per-axis pairs + 250 defaulted forms; thorough: full conv1d grid x bias, 50k conv2d); "
+                "(quick: 1500 sampled conv1d + 250 defaulted forms, 1000 conv2d + 350 sampled and ~290 enumerated per-axis pairs + 250 defaulted forms; thorough: full conv1d grid x bias, 50k conv2d); "
                 "pooling: every (extent 1..7, kernel 1..3, stride 1..3, ceil) on each axis paired with a random partner, max and avg; softmax/softmin: every axis of all small shapes dim 1..4; "
                 "norms dim 2..4, linear/bilinear, pairwise_distance, cosine_similarity sampled. distinct = (op, argument class, shapes+parameters) whose result has more than one element")
     ctx.set("hook_events", acc.summary())
